@@ -15,7 +15,7 @@ from lib import gen, lang as L, refsem, polar_driver as pd, common, snapshot
 
 PROPERTY_ID = "C05"
 RULE = (
-    "programs from profiles discrete (40%), guarded (40%), edge (20%) - guards that become false, variables assigned several times per iteration, "
+    "programs from profiles discrete (29%), guarded (29%), mixed (29%), edge (14%) - guards that become false, variables assigned several times per iteration, "
     "draws inside branches; settings.type_fp_iterations in {1,2,3,10,100}; non-trivial = Polar typed at least one variable it introduced or the program "
     "has a guard or a branch; distinct by (program, fp iterations)"
 )
@@ -35,7 +35,7 @@ def budget(tier):
 
 @st.composite
 def cases(draw, tier="quick"):
-    profile = draw(st.sampled_from(["discrete"] * 2 + ["guarded"] * 2 + ["edge"]))
+    profile = draw(st.sampled_from(["discrete"] * 2 + ["guarded"] * 2 + ["edge", "mixed", "mixed"]))
     prog, meta = draw(gen.programs(profile, uninit_ok=False, max_body=4))
     return {"prog": prog, "fp": draw(st.sampled_from([100, 100, 1, 2, 3, 10]))}
 
@@ -87,9 +87,13 @@ def run_case(case, tier="quick"):
     collected = {}
     states = []
 
+    nonconst = {}
+
     def on_assign(var, val, st_):
         if val.is_const():
             collected.setdefault(var, set()).add(val.cval())
+        else:
+            nonconst.setdefault(var, str(val))
 
     try:
         with pd.time_limit(tl * 3):
@@ -132,6 +136,10 @@ def run_case(case, tier="quick"):
         return dict(base, status="gave_up", bucket=str(e)[:60])
     except pd.CaseTimeout:
         return dict(base, status="gave_up", bucket="oracle_time_limit")
+    for v, example in sorted(nonconst.items()):
+        if v in types:
+            return dict(base, status="violation", bucket="continuous_value_in_finite_type", nontrivial=True,
+                        detail={"program": text, "normal_form": nform, "variable": v, "value": example, "type": sorted(L.fs(t) for t in types[v][0])})
     for where, coll in (("normal_form", collected), ("source", src)):
         for v, vals in sorted(coll.items()):
             if v not in types:
